@@ -49,8 +49,12 @@ template<class T> static void props(const char* nm, bool series, const T& t, dou
   bool nearbranch = f > 0 && alat < 2 && (std::fabs(ad - 90 * (1 - e)) < 2 || std::fabs(ad - 90 * (1 + e)) < 2);
   // sensitivity of ln(dZ/dw) to a displacement of one grid metre (k0 = 1): on the central meridian it is tan(phi)/a; used when the oracle is not available
   double sens0 = (1 + std::tan(std::fmin(alat, 89.9999999999999) * Math::degree())) / a * 4;
-  double eta = std::fabs(r.x) / (a * k0);
-  Tol tl = tol_grid(series, a, f, k0, r.x, r.y, r.k);
+  // easting in units of a k0, estimated from the INPUT (spherical transverse Mercator, +2 %): outside its domain of convergence the series
+  // returns garbage, so its own x must not decide whether the point is inside the domain
+  double ceta = std::cos(lat * Math::degree()) * std::sin(std::fmin(ad, 90.0) * Math::degree());
+  double eta_in = ad >= 90 ? 40.0 : 1.02 * std::atanh(std::fmin(ceta, 1 - 1e-16));
+  Tol tl = tol_grid(series, a, f, k0, std::fmax(std::fabs(r.x), series ? eta_in * a * k0 : 0.0), r.y, r.k);
+  if (series) tl.round = tol_grid(series, a, f, k0, r.x, r.y, r.k).round;
   bool accurate = !series || (tl.trunc <= 1e-3 && ad < 90 && std::isfinite(r.x));   // the series is only claimed inside its domain of convergence
   if (ext) {
     // extended domain (documented): lat >= 0, 0 <= d <= 90, or lat <= 0 and 90(1-e) <= d <= 90.  Only the round trip is claimed there,
